@@ -7,6 +7,7 @@ from hypothesis import strategies as st
 
 from vf.core import Clause, Property, Violation
 from vf.osk import KINDS, classes, rating_classes
+from vf.stateful import machine_factory, replayer
 
 ORDER_OPS = [("<", operator.lt), ("<=", operator.le), (">", operator.gt), (">=", operator.ge)]
 FOREIGN = ["none", "int", "float", "str", "tuple", "list", "dict", "object", "bool"] + ["rating:" + k for k in KINDS]
@@ -113,6 +114,94 @@ def check_foreign(case, ctx):
     ctx.nontrivial_if(True)
 
 
+# ------------------------------------------------------------------------------------------------
+# ratings that change between comparisons (leaderboard history)
+# ------------------------------------------------------------------------------------------------
+class Leaderboard:
+    """A pool of rating objects that are compared, sorted, updated (by assignment and by rate(), which updates in place) and compared again."""
+
+    def __init__(self, first, ctx):
+        from vf.osk import classes
+
+        self.kind = first["kind"]
+        self.ctx = ctx
+        self.model = classes()[self.kind]()
+        self.pool = [self.model.rating(m, s) for m, s in first["ratings"]]
+        self.nontrivial = False
+        self.labels = ["kind:" + self.kind]
+        self.compared = set()
+        self.changed_after_compare = False
+
+    @staticmethod
+    def init_strategy():
+        return st.fixed_dictionaries({
+            "op": st.just("init"), "kind": st.sampled_from(KINDS),
+            "ratings": st.lists(st.tuples(st.integers(-40, 80).map(lambda i: i / 2.0), st.integers(1, 24).map(lambda i: i / 2.0)).map(list), min_size=3, max_size=6)})
+
+    def _check_pair(self, i, j):
+        a, b = self.pool[i], self.pool[j]
+        oa, ob = a.mu - 3.0 * a.sigma, b.mu - 3.0 * b.sigma
+        for name, op in ORDER_OPS:
+            try:
+                got = op(a, b)
+            except Exception as e:  # noqa: BLE001
+                raise Violation(f"history:{name}:raised", f"{self.kind}: ({a!r}) {name} ({b!r}) raised {e!r}") from None
+            if got is not op(oa, ob):
+                raise Violation(f"history:order:{name}", f"{self.kind}: after updates, ({a!r}) {name} ({b!r}) is {got!r} but ordinals {oa!r} {name} {ob!r} is {op(oa, ob)!r}")
+        if a.ordinal() != oa:
+            raise Violation("history:ordinal", f"{self.kind}: ordinal() = {a.ordinal()!r} but mu - 3 sigma = {oa!r}")
+        if (a == b) is not (a.mu == b.mu and a.sigma == b.sigma):
+            raise Violation("history:equality", f"{self.kind}: ({a!r}) == ({b!r}) is {a == b}")
+        self.ctx.called(6)
+        if self.changed_after_compare and (i in self.compared or j in self.compared):
+            self.nontrivial = True
+        self.compared.update((i, j))
+
+    def apply(self, step):
+        n = len(self.pool)
+        op = step["op"]
+        if op == "compare":
+            self._check_pair(step["i"] % n, step["j"] % n)
+        elif op == "assign":
+            r = self.pool[step["i"] % n]
+            r.mu = step["mu"]
+            r.sigma = step["sigma"]
+            self.changed_after_compare = bool(self.compared)
+        elif op == "play":
+            i, j = step["i"] % n, step["j"] % n
+            if i == j:
+                return
+            try:
+                res = self.model.rate([[self.pool[i]], [self.pool[j]]], ranks=step["ranks"])
+            except Exception as e:  # noqa: BLE001
+                raise Violation("history:rate-raised", f"{self.kind}: rate raised {e!r}") from None
+            self.pool[i], self.pool[j] = res[0][0], res[1][0]
+            self.changed_after_compare = bool(self.compared)
+        elif op == "sort":
+            try:
+                got = sorted(self.pool)
+            except Exception as e:  # noqa: BLE001
+                raise Violation("history:sorted-raised", f"{self.kind}: sorted() raised {e!r}") from None
+            want = sorted(self.pool, key=lambda r: r.mu - 3.0 * r.sigma)
+            if [id(r) for r in got] != [id(r) for r in want]:
+                raise Violation("history:sorted", f"{self.kind}: after updates sorted(pool) = {got!r}, by current ordinal = {want!r}")
+            self.compared.update(range(n))
+        for k in range(n - 1):
+            self._check_pair(k, k + 1) if op == "sort" else None
+
+    RULES = {}
+
+
+Leaderboard.RULES = {
+    "compare": lambda h: st.fixed_dictionaries({"op": st.just("compare"), "i": st.integers(0, 5), "j": st.integers(0, 5)}),
+    "assign": lambda h: st.fixed_dictionaries({"op": st.just("assign"), "i": st.integers(0, 5), "mu": st.integers(-40, 80).map(lambda i: i / 2.0),
+                                               "sigma": st.integers(1, 24).map(lambda i: i / 2.0)}),
+    "play": lambda h: st.fixed_dictionaries({"op": st.just("play"), "i": st.integers(0, 5), "j": st.integers(0, 5),
+                                             "ranks": st.sampled_from([[0, 1], [1, 0], [0, 0]])}),
+    "sort": lambda h: st.just({"op": "sort"}),
+}
+
+
 def _num():
     return st.one_of(
         st.floats(-1e6, 1e6), st.floats(-100.0, 100.0), st.integers(-100, 100), st.integers(-100, 100).map(float),
@@ -171,6 +260,10 @@ PROPERTY = Property(
         Clause(name="foreign-operands", strategy=foreign_cases(), check=check_foreign, quick=2000, thorough=30000,
                rule="one rating against the exhaustive grid {None, int, float, str, tuple, list, dict, object, bool, rating of each other model} x 4 order operators "
                     "x both sides, plus == / !="),
+        Clause(name="leaderboard-history", kind="stateful", machine=machine_factory(Leaderboard), check=replayer(Leaderboard),
+               quick=480, thorough=8000, steps_quick=25, steps_thorough=60,
+               rule="rule-based machine: a pool of rating objects is compared, sorted, updated (attribute assignment; rate(), which updates in place) and compared "
+                    "again; non-trivial = a rating that had been compared was changed and then compared again"),
     ],
     rule="generated (class, (mu, sigma) pairs incl. ints, zeros, negatives, equal ordinals, equal values); oracle: (a op b) is (a.ordinal() op b.ordinal()) for the "
          "four order operators, ordinal(z) == mu - z*sigma exactly, == iff both coordinates equal, sorted == stable sort by ordinal, foreign operands raise ValueError "
